@@ -2,7 +2,8 @@
    Statements only.  Model: Model/PipelineModel.v with throwing stages / a throwing generator, TaskSetBase::trySetCurrentException
    (compare-exchange, then the cancel store), hasException() checks, the discard path of wait() (cleanupNotRun), the RAII guards,
    the cancelled check of packageTask.  Any number of stages / items / threads, every interleaving.
-   The property as stated is FALSE of the code in three ways (witnesses below, each replayed on the real code by props/C29.py);
+   The property as stated was FALSE of the code in three ways; two are repaired in /repo (1a07319 hang, f2764c3 escape: their
+   witnesses are kept as regression Examples), the leak remains (C29_refuted, replayed on the real code by props/C29.py);
    the parts that do hold are proved for all schedules.
    Tie: lockstep under harness/vsched.h on the real dispenso::pipeline with lifetime-tracked payloads (props/C29.py). *)
 From Coq Require Import ZArith List Bool Lia.
@@ -19,7 +20,7 @@ Definition C29_full_statement : Prop :=
     (exists s', reach (mstep c) s s' /\ done (sh s') = true) /\
     (done (sh s) = true -> forall e, In e (log (sh s)) -> e_kind e <> 8 /\ e_kind e <> 11).
 
-(* ---------- FALSE, witness 1 (leak): pipeline() has returned, rethrowing exception 1001, and the task of item 0, which was in
+(* ---------- FALSE (remaining known finding), witness (leak): pipeline() has returned, rethrowing exception 1001, and the task of item 0, which was in
    the pool when the exception was captured, was skipped by the cancelled packageTask wrapper: the OnceFunction it wraps is never
    invoked nor cleaned up, its payload is never destroyed. ---------- *)
 Theorem C29_refuted :
@@ -29,24 +30,35 @@ Theorem C29_refuted :
 Proof. exact leak_refuted. Qed.
 Print Assumptions C29_refuted.
 
-(* ---------- FALSE, witness 2 (hang): two generator instances; the second one is still queued when a stage throws; the cancelled
-   wrapper skips it, so its CompletionGuard never counts the completion latch down: the caller sleeps in completion_->wait(0), no
-   other thread has anything to do, and every state reachable from there is that same state: pipeline() never returns. ---------- *)
-Theorem C29_hang_refuted :
-  has_throw c_hang = true /\ reach (mstep c_hang) (init c_hang) s_hang /\ result (sh s_hang) = None /\
-  forall s', reach (mstep c_hang) s_hang s' -> s' = s_hang.
-Proof. exact hang_refuted. Qed.
-Print Assumptions C29_hang_refuted.
+(* ---------- REPAIRED in /repo 1a07319 (was: FALSE, pipeline() never returns).  Two generator instances; the second one is still
+   queued when a stage throws and is skipped by the cancelled wrapper.  Its CompletionGuard, now owned by the task by value, counts
+   the latch down when the skipped functor is destroyed.  Regression: the former witness run returns, rethrowing 1000. ---------- *)
+Example C29_hang_regression :
+  has_throw c_hang = true /\ done (sh s_hang) = true /\ result (sh s_hang) = Some 1000 /\ compl (sh s_hang) = 0 /\
+  existsb (fun e => e_kind e =? 13) (log (sh s_hang)) = true.
+Proof. exact hang_fixed. Qed.
+(* In every reachable state of every pipeline the completion latch equals the number of generator instances that have not yet passed
+   their CompletionGuard (not yet dispatched, queued, popped, running, or skipped with the guard pending: measure m_genc): a positive
+   latch always has an owner who will count it down. *)
+Theorem C29_completion_latch_owned : forall c s,
+  (0 < nstages c)%nat -> reach (mstep c) (init c) s -> compl (sh s) = total (m_genc c) s.
+Proof. exact latch_owned. Qed.
+Print Assumptions C29_completion_latch_owned.
 
-(* ---------- FALSE, witness 3 (escape): with a loaded pool (poolLoadFactor_ exceeded) a generator instance runs inline inside
-   execute(); its exception leaves pipeline() through execute(), wait() is skipped and the Pipe objects are destroyed while another
-   generator instance that references them is still queued (pout = 1).  The model stops at that point. ---------- *)
-Theorem C29_escape_reachable :
-  exists s, reach (mstep c_esc) (init c_esc) s /\ map escaping (threads s) = [true; false] /\ 0 < pout (sh s).
-Proof. exact escape_reachable. Qed.
-Print Assumptions C29_escape_reachable.
+(* ---------- REPAIRED in /repo f2764c3 (was: FALSE, an exception leaves pipeline() through execute() while generator tasks still
+   reference the pipes).  The generator functor records its exception in the task set itself.  Regression: the former witness
+   (poolLoadFactor_ 0, instance run inline inside execute(), generator throws) returns with exception 0, pool empty. ---------- *)
+Example C29_escape_regression :
+  has_throw c_esc = true /\ done (sh s_esc) = true /\ result (sh s_esc) = Some 0 /\ pout (sh s_esc) = 0 /\
+  map escaping (threads s_esc) = [false; false].
+Proof. exact escape_fixed. Qed.
+(* A generator functor never lets an exception out: after any of its steps the thread is not unwinding. *)
+Theorem C29_generator_catches : forall c t s th pc r ch s1 th1 ch1 site wake,
+  stack th = FGen pc :: r -> mstep_thread c t s th ch = Some (s1, th1, ch1, site, wake) -> unw th1 = None.
+Proof. exact generator_catches. Qed.
+Print Assumptions C29_generator_catches.
 
-(* ---------- TRUE on the complement of the findings' domain (no stage throws, [has_throw c = false]): no payload is ever skipped or
+(* ---------- TRUE on the complement of the remaining finding's domain (no stage throws, [has_throw c = false]): no payload is ever skipped or
    stranded and pipeline() returns normally. ---------- *)
 Theorem C29_holds_except : forall c s,
   has_throw c = false -> (0 < nstages c)%nat -> reach (mstep c) (init c) s ->
